@@ -109,9 +109,12 @@ B1(int,1,0) B1(int,3,0) B1(int,4,1) B1(int,5,2) B1(int,9,0) B1(float,1,0) B1(flo
 B2(int,2,5,2,5,1,5) B2(int,2,5,1,5,2,5) B2(int,2,5,2,1,2,5) B2(int,2,5,2,5,2,1) B2(int,2,5,1,1,2,5) B2(int,2,5,2,5,1,1) B2(int,2,5,2,1,1,5) B2(int,3,4,1,4,3,1) B2(float,2,5,2,1,1,5) B2(float,2,5,1,1,2,5)
 OT(2,5) OT(3,4) OT(1,1) OT(2,9)
 // (replayed concretely and correct, but beyond what LLVM folds: int multiply N=17, (3,9)+(3,1)x(1,9), (2,4)+(2,1) rhs, float (3,9), outer (4,4), (3,13))
+#if defined(VERIF_THOROUGH) && !defined(C12C_NO_39)   /* (3,9) outputs fold with 4 lanes only (replayed: correct with 8 and 16) */
+B2(int,3,9,3,9,1,9) B2(int,3,9,1,1,3,9)
+#endif
 #ifdef VERIF_THOROUGH
 B1(int,2,0) B1(int,6,0) B1(int,7,1) B1(int,8,2) B1(int,13,0) B1(int,17,0) B1(float,2,1) B1(float,3,2) B1(float,6,0) B1(float,8,1) B1(float,13,0) B1(float,17,2) B1(double,2,2) B1(double,4,0) B1(double,7,1) B1(double,9,0)
-B2(int,3,9,3,9,1,9) B2(int,3,9,1,1,3,9) B2(int,2,3,2,1,2,3) B2(int,1,5,1,5,1,1) B2(float,2,6,1,6,2,1) B2(double,2,5,2,1,1,5) B2(double,2,3,1,3,2,3)
+B2(int,2,3,2,3,1,3) B2(int,2,3,2,1,2,3) B2(int,1,5,1,5,1,1) B2(float,2,6,1,6,2,1) B2(double,2,5,2,1,1,5) B2(double,2,3,1,3,2,3)
 OT(4,3) OT(5,3) OT(1,9) OT(2,7)
 #endif
 void ob_c12c_negctl(const tarr<int,5>& a, const tarr<int,5>& b)
